@@ -174,6 +174,80 @@ def fingerprint(root, with_side=False):
     return fp(root)
 
 
+def isomorphic(a, b, budget=20000):
+    """Same shape, same leaves (value and type), same container types, same order where there is one, and the SAME
+    SHARING PATTERN - decided by finding a one-to-one correspondence between the containers of a and those of b.
+    Needed where the numbering used by fingerprint() is arbitrary: members of a set that look alike (say two empty
+    identity-hashed lists, one of them also referenced from elsewhere) can only be told apart by who else points at
+    them.  Backtracks over the ways of pairing up set members; gives up (returns None) past the budget."""
+    steps = [0]
+
+    def empty_imm(x):
+        return isinstance(x, (tuple, frozenset)) and len(x) == 0
+
+    def go(x, y, m, rev):
+        """Yields every extension of the correspondence (m, rev) under which x and y match."""
+        steps[0] += 1
+        if steps[0] > budget:
+            raise OverflowError
+        cx, cy = is_container(x), is_container(y)
+        if cx != cy:
+            return
+        if not cx:
+            if type(x) is type(y) and (x is y or x == y or (x != x and y != y)):
+                yield (m, rev)
+            return
+        if type(x) is not type(y) or len(x) != len(y):
+            return
+        if empty_imm(x):
+            yield (m, rev)
+            return
+        if id(x) in m or id(y) in rev:
+            if m.get(id(x)) == id(y) and rev.get(id(y)) == id(x):
+                yield (m, rev)
+            return
+        m = dict(m)
+        rev = dict(rev)
+        m[id(x)] = id(y)
+        rev[id(y)] = id(x)
+        if isinstance(x, dict):
+            pairs = [p for (kx, vx), (ky, vy) in zip(x.items(), y.items()) for p in ((kx, ky), (vx, vy))]
+            for r in seq(pairs, 0, m, rev):
+                yield r
+        elif isinstance(x, (list, tuple)):
+            for r in seq(list(zip(x, y)), 0, m, rev):
+                yield r
+        else:
+            # sets: pair the members up in every possible way
+            for r in match(list(x), 0, list(y), m, rev):
+                yield r
+
+    def seq(pairs, i, m, rev):
+        if i == len(pairs):
+            yield (m, rev)
+            return
+        for r in go(pairs[i][0], pairs[i][1], m, rev):
+            for r2 in seq(pairs, i + 1, *r):
+                yield r2
+
+    def match(xs, i, left, m, rev):
+        if i == len(xs):
+            yield (m, rev)
+            return
+        for j, cand in enumerate(left):
+            for r in go(xs[i], cand, m, rev):
+                for r2 in match(xs, i + 1, left[:j] + left[j + 1:], *r):
+                    yield r2
+
+    sys.setrecursionlimit(10000)
+    try:
+        for _ in go(a, b, {}, {}):
+            return True
+        return False
+    except (OverflowError, RecursionError):
+        return None
+
+
 def plain(x, depth=0, _budget=None, _onpath=None):
     """Sharing-free structural view, bounded (cycles cut at the revisit, total size capped)."""
     if _budget is None:
@@ -342,7 +416,54 @@ def model_remap(root, visit):
     return rebuild(root, ())
 
 
+def check_chain(c, st):
+    """Thousands of containers nested in one another (a parsed document, a linked list of dicts): remap works off its
+    own stack, so depth alone is no reason to fail.  Built, copied and compared without recursion."""
+    iu = common.load('iterutils')
+    kinds = c['kinds']
+    x = 'bottom'
+    for i in range(c['depth']):
+        k = kinds[i % len(kinds)]
+        x = [x] if k == 'list' else (x,) if k == 'tuple' else {'k': x} if k == 'dict' else [i, x, None]
+    st.monitor_evals += 1
+    sys.setrecursionlimit(max(sys.getrecursionlimit(), 1000))
+    visit = None
+    if c.get('visit') == 'bump-ints':
+        def visit(path, key, value):
+            return key, (value + 1 if type(value) is int else value)
+    got = common.outcome(lambda: iu.remap(x, visit=visit) if visit else iu.remap(x))
+    if got[0] != 'ok':
+        return ('deep-chain:raised:' + got[1], 'remap of %d containers nested in one another (%s) raised %s'
+                % (c['depth'], '/'.join(kinds), got[1]))
+    a, b, d = x, got[1], 0
+    while True:
+        if type(a) is not type(b):
+            return ('deep-chain:differs', 'level %d: %s vs %s' % (d, type(a).__name__, type(b).__name__))
+        if not is_container(a):
+            if a != b:
+                return ('deep-chain:differs', 'bottom %r vs %r' % (a, b))
+            break
+        if len(a) != len(b) or (a is b and not isinstance(a, tuple)):
+            return ('deep-chain:differs', 'level %d: lengths %d vs %d, same object %r' % (d, len(a), len(b), a is b))
+        if isinstance(a, dict):
+            a, b = a['k'], b.get('k')
+        elif len(a) == 3:
+            if b[0] != a[0] + (1 if visit else 0) or b[2] is not None:
+                return ('deep-chain:differs', 'level %d: siblings %r vs %r' % (d, (a[0], a[2]), (b[0], b[2])))
+            a, b = a[1], b[1]
+        else:
+            a, b = a[0], b[0]
+        d += 1
+    if d != c['depth']:
+        return ('deep-chain:differs', 'depth %d vs %d' % (d, c['depth']))
+    st.count('deep_chains')
+    st.peak('max_nesting_depth', c['depth'])
+    return None
+
+
 def check(c, st):
+    if c.get('kind') == 'chain':
+        return check_chain(c, st)
     iu = common.load('iterutils')
     objs = build(c['table'])
     root = objs[c['root']]
@@ -396,11 +517,15 @@ def check(c, st):
                 % (got if got[0] == 'exc' else 'value', want if want[0] == 'exc' else 'value', c))
     if got[0] == 'ok':
         fg, fw = fingerprint(got[1]), fingerprint(want[1])
+        if fg != fw and plain(got[1]) == plain(want[1]) and isomorphic(got[1], want[1]):
+            # only the arbitrary numbering of look-alike set members differed
+            st.count('fingerprint_ties_settled_by_isomorphism')
+            fw = fg
         if fg != fw:
             what = 'sharing' if plain(got[1]) == plain(want[1]) else 'structure'
             return ('differs:%s:%s' % (what, tag), 'remap -> %r ; recursive rebuild -> %r (case %r)' % (fg, fw, c))
         if visit is None:
-            if fg != before:
+            if fg != before and not isomorphic(got[1], root):
                 return ('default-not-a-copy:' + tag, 'default remap %r != input %r' % (fg, before))
             mi, _ = mutable_ids(root)
             mo, _ = mutable_ids(got[1])
@@ -602,6 +727,14 @@ def shrink(case, fails):
 
 def run(ctx):
     n = {'quick': 15000, 'thorough': 450000}[ctx.tier]
+    from checks.common.cases import run_case
+    chains = [{'kind': 'chain', 'depth': d, 'kinds': k, 'visit': v} for d, k, v in
+              ((1200, ['list'], None), (1500, ['dict', 'list'], None), (2500, ['tuple', 'list', 'dict'], None),
+               (1100, ['wide'], 'bump-ints'), (3000, ['dict'], None), (1300, ['tuple'], None), (2000, ['list', 'wide'], 'bump-ints'),
+               (5000, ['list', 'dict'], None))]
+    mine = [c for i, c in enumerate(chains) if i % ctx.nshards == ctx.shard % len(chains)]
+    for c in (mine if ctx.thorough else mine[:1]):
+        run_case(ctx, c, check, 'chain', None, {})
     if ctx.thorough:
         explore_cases(ctx, lambda r: gen(r, 25, 9), check, n // 3, 'deep', shrink)
     explore_cases(ctx, gen, check, n, 'remap', shrink)
